@@ -49,6 +49,7 @@ ROWS = [
     (30, r"^C08-R5\|ClassDef\|ClassDef\.decorator_list|^C12-R1\|ClassDef\|decorators-dropped", "@deco\\nclass A: pass -> decorator not applied, no error", "fix 0018"),
     (31, r"^C17-R[23]\|", "400 consecutive assignments with the default options -> RecursionError (ast.unparse on a tree as deep as the block is long)", "known"),
     (32, r"^(C04-R4|C15-R2)\|(_Node\|two-quotes|Constant\|bytes)", "host 3.10/3.11: f'{b\"x\"}' -> f'{b'x'}'; nesting depth 3 re-uses the outer quote", "known"),
+    (37, r"^C12-R8\|", "class A:\\n __x = 1  /  def f(self): __t = 5  /  def __helper(self) -> KeyError during conversion; self.__x = 1 -> attribute `__x` instead of `_A__x`", "known"),
     (33, r"^C02-R2\|\w+\|[\w.]+\|index-tuple-with-slice", "a[1:2, 3] = 0 -> a.__setitem__((1:2, 3), 0), not an expression", "fix 0012"),
 ]
 
